@@ -137,11 +137,35 @@ def run(ctx):
         r = _cycle_run(program, [("stop",)], te=None, fe=None, S=S, H=H, times=[50.0], check_now=check_now, expr_true=expr_true, from_start=True)
         want_disp = 1 if (check_now and expr_true and S is None) else 0
         want_hold = 50.0 if (check_now and expr_true and S is not None) else None
-        ok = r is not None and len(r["dispatch"]) == want_disp and r["te"] == want_hold
+        # (documented: with state_hold_false the expression is evaluated at start-up; if False the state_hold_false period begins - with or without state_check_now)
+        want_false = 50.0 if (H is not None and not expr_true) else None
+        ok = r is not None and len(r["dispatch"]) == want_disp and r["te"] == want_hold and r["fe"] == want_false
         ctx.check(ok, "R05.5", CYC, f"start-up check_now={check_now} expr={expr_true} hold={S} hold_false={H}",
                   msg=f"StateTriggerDecorator._cycle start-up with state_check_now={check_now}, expression {'true' if expr_true else 'false'}, state_hold={S}, state_hold_false={H}: "
-                  f"{len(r['dispatch']) if r else '?'} dispatch(es), hold since {r and r['te']}; documented {want_disp} dispatch(es), hold since {want_hold}", key=f"startup {check_now}/{expr_true}/{S}/{H}",
+                  f"{len(r['dispatch']) if r else '?'} dispatch(es), hold since {r and r['te']}, false since {r and r['fe']}; documented {want_disp} dispatch(es), hold since {want_hold}, "
+                  f"false since {want_false}", key=f"startup {check_now}/{expr_true}/{S}/{H}",
                   node=program.func(CYC), rel="decorators/state.py")
+
+    ctx.rule("R05.12", "an any-change name next to an expression: its occurrence is no evaluation of the expression - it runs without the state_hold_false test and does not use "
+             "up the recorded false period (both subsystems; the legacy loop is the reference)", floor=3)
+    # new subsystem: false seen at 100.0 (recorded), any-change occurrence at 101.0 (H = 3: too early for the expression, irrelevant for an any-change), expression true at 104.0
+    r = _cycle_run(program, [("note", A1, True, False, False), ("note", A2, False, True, True), ("stop",)], te=None, fe=100.0, S=None, H=3.0, times=[101.0, 104.0])
+    n = len(r["dispatch"]) if r else None
+    ctx.check(r is not None and n == 2, "R05.12", CYC, "new: any-change occurrence during the false period, expression true after it",
+              msg=f"StateTriggerDecorator._cycle, state_hold_false=3, expression false since 100.0: any-change match at 101.0, expression true at 104.0: {n} run(s), specified 2 "
+              "(the any-change occurrence runs; it is not an evaluation, so the true evaluation 4 s after the false still runs)", key="new any-change under hold_false", node=program.func(CYC),
+              rel="decorators/state.py")
+    r = _cycle_run(program, [("note", A1, True, False, False), ("note", A2, False, False, False), ("stop",)], te=None, fe=None, S=None, H=0, times=[101.0, 102.0])
+    n = len(r["dispatch"]) if r else None
+    ctx.check(r is not None and n == 1, "R05.12", CYC, "new: any-change occurrence, expression never seen false",
+              msg=f"StateTriggerDecorator._cycle, state_hold_false=0, expression never seen false: any-change match: {n} run(s), specified 1", key="new any-change, never false", node=program.func(CYC),
+              rel="decorators/state.py")
+    for luid in ("trigger.py::TrigInfo.trigger_watch",):
+        got = legacy_run(program, luid, [("note", False, True, False), ("note", True, False, False), ("note", False, True, True)], None, 3.0, [100.0, 101.0, 104.0])
+        runs = {r for _, r in got}
+        ctx.check(runs == {((2, "v1"), (3, "v2"))}, "R05.12", luid, "legacy: any-change occurrence during the false period, expression true after it",
+                  msg=f"{luid}: false at 100.0, any-change match at 101.0, expression true at 104.0 (state_hold_false=3): runs {sorted(runs)}, specified [((2, 'v1'), (3, 'v2'))]",
+                  key="legacy any-change under hold_false", node=program.func(luid), rel="trigger.py")
 
     ctx.rule("R05.11", "task.wait_until (new subsystem) with state_hold and state_hold_false: an initially true expression starts the hold at once, but the state_hold_false "
              "rule stays in force for the rest of the wait (a false cancels the hold; a true that follows too soon is ignored) - as in the legacy subsystem", floor=2)
